@@ -884,6 +884,9 @@ class Sampler():
                 else:
                     self.blobs_dtype = np.array([blobs[0][0]]).dtype
             blobs = np.squeeze(np.array(blobs, dtype=self.blobs_dtype))
+            if len(result) == 1:
+                # For a single point, squeezing also removed the batch axis.
+                blobs = blobs[np.newaxis]
         else:
             log_l = np.array(result)
             blobs = None
